@@ -4,6 +4,7 @@ import (
 	"context"
 	"encoding/json"
 	"fmt"
+	"net"
 	"os"
 	"strings"
 	"sync"
@@ -13,6 +14,7 @@ import (
 
 	"github.com/pion/ice/v4"
 	"github.com/pion/logging"
+	"github.com/pion/stun/v3"
 )
 
 // ---------- C08: Close / GracefulClose at every point of an agent's life.
@@ -35,6 +37,7 @@ type closeScenario struct {
 	Restart    bool   `json:"restart"`    // Restart + GatherCandidates after the pump steps, before the close
 	PreGather  bool   `json:"preGather"`  // close before GatherCandidates was ever called
 	Writer     bool   `json:"writer"`     // a goroutine keeps writing application data on A's conn
+	TCP        bool   `json:"tcp"`        // passive ICE-TCP candidate on a real TCPMuxDefault, the driver plays the peer
 }
 
 type closeJob struct {
@@ -94,7 +97,9 @@ func TestClose(t *testing.T) {
 		log.seq = 0
 		log.emit("Begin", "cfg", sc)
 		leak := ""
-		func() {
+		finished := make(chan struct{})
+		go func() {
+			defer close(finished)
 			defer func() {
 				if r := recover(); r != nil {
 					leak = fmt.Sprint(r)
@@ -103,8 +108,23 @@ func TestClose(t *testing.T) {
 					}
 				}
 			}()
-			synctest.Test(t, func(t *testing.T) { runCloseScenario(t, sc, log) })
+			synctest.Test(t, func(t *testing.T) {
+				if sc.TCP {
+					runCloseTCP(t, sc, log)
+				} else {
+					runCloseScenario(t, sc, log)
+				}
+			})
 		}()
+		select {
+		case <-finished:
+		case <-time.After(45 * time.Second): // real time, outside the bubble: a scenario takes milliseconds
+			// A goroutine blocked on a sync.Mutex (or spinning) is not durably blocked, so the bubble can neither advance
+			// nor report a deadlock: the scenario hangs. Record it as the scenario's outcome and stop the driver.
+			log.emit("End", "err", "watchdog: the scenario did not settle within 45 s of real time (goroutine stuck on a mutex or spinning)")
+			_ = out.Sync()
+			os.Exit(3)
+		}
 		log.emit("End", "err", leak)
 	}
 }
@@ -355,4 +375,144 @@ func mkHostCand(name string) ice.Candidate {
 	c, _ := ice.NewCandidateHost(&ice.CandidateHostConfig{Network: "udp", Address: hp[:i], Port: port, Component: 1})
 
 	return c
+}
+
+// ---------- ICE-TCP variant: a passive TCP host candidate on a real TCPMuxDefault over a fake listener; the peer is the
+// driver itself, speaking framed STUN over one end of a net.Pipe. With BlockWrite the peer stops reading, so the agent's
+// answer sits in a blocked stream write inside a loop task when the close starts.
+
+type pipeListener struct {
+	ch     chan net.Conn
+	closed chan struct{}
+	once   sync.Once
+	addr   *net.TCPAddr
+}
+
+func (l *pipeListener) Accept() (net.Conn, error) {
+	select {
+	case c := <-l.ch:
+		return c, nil
+	case <-l.closed:
+		return nil, net.ErrClosed
+	}
+}
+func (l *pipeListener) Close() error   { l.once.Do(func() { close(l.closed) }); return nil }
+func (l *pipeListener) Addr() net.Addr { return l.addr }
+
+type addrConn struct {
+	net.Conn
+	l, r *net.TCPAddr
+}
+
+func (p *addrConn) LocalAddr() net.Addr  { return p.l }
+func (p *addrConn) RemoteAddr() net.Addr { return p.r }
+
+func runCloseTCP(t *testing.T, sc closeScenario, log *evlog) {
+	t.Helper()
+	lf := logging.NewDefaultLoggerFactory()
+	lf.DefaultLogLevel = logging.LogLevelDisabled
+	ln := &pipeListener{ch: make(chan net.Conn), closed: make(chan struct{}), addr: &net.TCPAddr{IP: net.IPv4(127, 0, 0, 1), Port: 4000}}
+	mux := ice.NewTCPMuxDefault(ice.TCPMuxParams{Listener: ln, Logger: lf.NewLogger("ice"), ReadBufferSize: 8})
+	ua, pa := cred("A", 1)
+	ub, pb := cred("B", 1)
+	a, err := ice.NewAgentWithOptions(ice.WithTCPMux(mux), ice.WithMulticastDNSMode(ice.MulticastDNSModeDisabled),
+		ice.WithCandidateTypes([]ice.CandidateType{ice.CandidateTypeHost}), ice.WithNetworkTypes([]ice.NetworkType{ice.NetworkTypeTCP4}),
+		ice.WithIncludeLoopback(), ice.WithLoggerFactory(lf), ice.WithLocalCredentials(ua, pa))
+	if err != nil {
+		t.Fatal(err)
+	}
+	doClose := func(who string, graceful bool) {
+		log.emit("CloseStart", "who", who, "graceful", graceful)
+		var cerr error
+		if graceful {
+			cerr = a.GracefulClose()
+		} else {
+			cerr = a.Close()
+		}
+		log.emit("CloseReturn", "who", who, "graceful", graceful, "err", errStr(cerr))
+	}
+	_ = a.OnCandidate(func(ice.Candidate) { log.emit("HStart", "who", "cand"); log.emit("HEnd", "who", "cand") })
+	_ = a.OnConnectionStateChange(func(s ice.ConnectionState) {
+		log.emit("HStart", "who", "state", "st", s.String())
+		if sc.SlowState {
+			time.Sleep(time.Second)
+		}
+		log.emit("HEnd", "who", "state", "st", s.String())
+	})
+	_ = a.OnSelectedCandidatePairChange(func(ice.Candidate, ice.Candidate) { log.emit("HStart", "who", "pair"); log.emit("HEnd", "who", "pair") })
+	log.emit("Call", "who", "gather", "err", errStr(a.GatherCandidates()))
+	synctest.Wait()
+	go func() {
+		log.emit("CallStart", "who", "dial")
+		_, aerr := a.Accept(context.Background(), ub, pb)
+		log.emit("CallReturn", "who", "dial", "err", errStr(aerr))
+	}()
+	synctest.Wait()
+	// the peer: an ICE-TCP client that sends one authenticated check (with USE-CANDIDATE) and then reads or stalls
+	client, server := net.Pipe()
+	peerAddr := &net.TCPAddr{IP: net.IPv4(10, 9, 9, 9), Port: 1001}
+	go func() { ln.ch <- &addrConn{server, ln.addr, peerAddr} }()
+	req, berr := stun.Build(stun.BindingRequest, stun.TransactionID, stun.NewUsername(ua+":"+ub), ice.UseCandidate(),
+		ice.AttrControlling(7), ice.PriorityAttr(2130706431), stun.NewShortTermIntegrity(pa), stun.Fingerprint)
+	if berr != nil {
+		t.Fatal(berr)
+	}
+	framed := append([]byte{byte(len(req.Raw) >> 8), byte(len(req.Raw))}, req.Raw...)
+	go func() { _, _ = client.Write(framed) }()
+	if !sc.BlockWrite {
+		go func() { // a peer that keeps reading whatever the agent sends
+			b := make([]byte, 4096)
+			for {
+				if _, rerr := client.Read(b); rerr != nil {
+					return
+				}
+			}
+		}()
+	}
+	synctest.Wait()
+	for step := 0; step < sc.K; step++ {
+		go ice.VerifTick(a)
+		synctest.Wait()
+		time.Sleep(20 * time.Millisecond)
+	}
+	done := make(chan struct{}, 2)
+	closers := 1
+	go func() { doClose("api", sc.Graceful); done <- struct{}{} }()
+	if sc.Second != "" {
+		closers++
+		go func() { doClose("api2", sc.Second == "graceful"); done <- struct{}{} }()
+	}
+	synctest.Wait()
+	time.Sleep(5 * time.Second)
+	synctest.Wait()
+	returned := 0
+	for i := 0; i < closers; i++ {
+		select {
+		case <-done:
+			returned++
+		default:
+		}
+	}
+	log.emit("Settled", "n", returned, "closers", closers)
+	after := func(who string, f func() error) {
+		ch := make(chan error, 1)
+		go func() { ch <- f() }()
+		synctest.Wait()
+		select {
+		case cerr := <-ch:
+			log.emit("After", "who", who, "err", errStr(cerr))
+		default:
+			log.emit("After", "who", who, "err", "BLOCKED")
+		}
+	}
+	after("GetLocalCandidates", func() error { _, cerr := a.GetLocalCandidates(); return cerr })
+	after("Restart", func() error { return a.Restart("", "") })
+	after("Close", func() error { return a.Close() })
+	snap := a.VerifSnapshot()
+	log.emit("AfterSnapshot", "ok", snap.OK)
+	_ = client.Close() // unwedge a stuck agent so that the bubble can end; what it left behind is judged from the events
+	_ = mux.Close()
+	time.Sleep(time.Minute)
+	synctest.Wait()
+	log.emit("Quiet")
 }
